@@ -66,7 +66,7 @@ const (
 // stats of one scenario, for the non-triviality rules and labels
 type stats struct {
 	staleOnExisting, equalTSReplace, deleteMatched, deleteAtStoredTS, futureRejected, futureAccepted bool
-	hugeThreshold, legacyValue, starLiteral, projectionCompared, serverName                         bool
+	hugeThreshold, legacyValue, starLiteral, projectionCompared, serverName, excludedMeta           bool
 	valueKinds                                                                                      map[string]bool // value kinds of the updates actually built
 	sharedPrefixMultiDelete, multiMixed, plainOverAtomic, atomicOverPlain, suppressedSeen            bool
 	resetWide, removeWide, connErrThenConnect, emptyNoti, acceptedSeen, collideSeen                  bool
@@ -115,6 +115,7 @@ func (s *stats) labels() []string {
 	add(s.futureAccepted, "future-beyond-clock-accepted-by-latest")
 	add(s.legacyValue, "value-in-the-deprecated-value-field")
 	add(s.serverName, "cache-created-with-a-server-name")
+	add(s.excludedMeta, "cache-created-with-excluded-metadata-entries")
 	add(s.projectionCompared, "target-compared-with-a-run-without-the-other-targets-operations")
 	add(s.starLiteral, "update-path-with-an-element-or-key-value-that-is-literally-a-star")
 	add(s.hugeThreshold, "future-threshold-near-the-int64-range(never-reject)")
@@ -253,6 +254,10 @@ func newWorld(sc *Scenario, props map[string]bool) *world {
 	}
 	if !sc.EventDriven {
 		opts = append(opts, cache.DisableEventDrivenEmulation())
+	}
+	if len(sc.ExcludedMeta) > 0 {
+		opts = append(opts, cache.WithExcludedMeta(sc.ExcludedMeta))
+		w.st.excludedMeta = true
 	}
 	if sc.ServerName != "" {
 		opts = append(opts, cache.WithServerName(sc.ServerName))
